@@ -41,6 +41,8 @@ type Rec struct {
 	Outcome  string `json:"outcome"` // ok | error | crash | hang
 	Returned bool   `json:"returned"`
 	Leaked   int    `json:"leaked"`
+	Inflight int    `json:"inflight"` // 1: the request returned while its resolver was still working
+	Late     int    `json:"late"`     // uses of the ResponseWriter after ServeHTTP returned
 	Ms       int    `json:"ms"`
 	W        int    `json:"w"`
 	D        int    `json:"d"`
@@ -100,7 +102,7 @@ func waitGoroutines(base int, grace time.Duration) int {
 
 // ---- cancellation ----
 
-var cancelPoints = []string{"before", "run.locked", "run.cleaned", "comp.new", "resolver", "run.done", "arm", "after"}
+var cancelPoints = []string{"before", "run.locked", "run.cleaned", "comp.new", "resolver", "resolver.busy", "run.done", "arm", "after"}
 
 func cancelCase(target, point string, gql *graphql.Schema, fed *federation.Server) Rec {
 	rec := Rec{Kind: "cancel", Target: target, Point: point}
@@ -114,9 +116,18 @@ func cancelCase(target, point string, gql *graphql.Schema, fed *federation.Serve
 			fire()
 		}
 	}
+	var busy, late int32
 	resolverGate = func() {
 		if point == "resolver" {
 			fire()
+		}
+		if point == "resolver.busy" {
+			// the resolver notices the cancellation and needs a while to wind down: the request
+			// must not return underneath it (OneShot.tla NoRunAfterReturn)
+			atomic.StoreInt32(&busy, 1)
+			fire()
+			time.Sleep(150 * time.Millisecond)
+			atomic.StoreInt32(&busy, 0)
 		}
 	}
 	defer func() { rx.VerifHook = nil; resolverGate = nil }()
@@ -135,8 +146,12 @@ func cancelCase(target, point string, gql *graphql.Schema, fed *federation.Serve
 		case "http":
 			body, _ := json.Marshal(map[string]interface{}{"query": "{ t { id name self { id } } ts { name } }", "variables": map[string]interface{}{}})
 			req := httptest.NewRequest("POST", "/graphql", bytes.NewReader(body)).WithContext(ctx)
-			w := httptest.NewRecorder()
+			w := &lateWriter{ResponseWriter: httptest.NewRecorder(), late: &late}
 			graphql.HTTPHandler(gql).ServeHTTP(w, req)
+			atomic.StoreInt32(&w.returned, 1)
+			if atomic.LoadInt32(&busy) == 1 {
+				rec.Inflight = 1
+			}
 			done <- "ok"
 		case "federation":
 			q, err := graphql.Parse("{ t { id name } ts { name } }", nil)
@@ -150,6 +165,9 @@ func cancelCase(target, point string, gql *graphql.Schema, fed *federation.Serve
 				return
 			}
 			_, err = fed.Execute(ctx, &thunderpb.ExecuteRequest{Query: pq})
+			if atomic.LoadInt32(&busy) == 1 {
+				rec.Inflight = 1
+			}
 			if err != nil {
 				done <- "error: " + err.Error()
 			} else {
@@ -171,8 +189,25 @@ func cancelCase(target, point string, gql *graphql.Schema, fed *federation.Serve
 	rec.Ms = int(time.Since(start) / time.Millisecond)
 	cancel()
 	rec.Leaked = waitGoroutines(base, 2*time.Second)
+	rec.Late = int(atomic.LoadInt32(&late))
 	return rec
 }
+
+// lateWriter counts uses of the ResponseWriter after ServeHTTP has returned.
+type lateWriter struct {
+	http.ResponseWriter
+	returned int32
+	late     *int32
+}
+
+func (w *lateWriter) note() {
+	if atomic.LoadInt32(&w.returned) == 1 {
+		atomic.AddInt32(w.late, 1)
+	}
+}
+func (w *lateWriter) Header() http.Header         { w.note(); return w.ResponseWriter.Header() }
+func (w *lateWriter) Write(b []byte) (int, error) { w.note(); return w.ResponseWriter.Write(b) }
+func (w *lateWriter) WriteHeader(c int)           { w.note(); w.ResponseWriter.WriteHeader(c) }
 
 // ---- hostile structured input ----
 
